@@ -15,6 +15,20 @@ from lxml import etree
 XS = 'http://www.w3.org/2001/XMLSchema'
 
 
+import re
+
+_IMPLIED = re.compile(r'implied value(?: of the initial version| for the initial (?:state|descriptor) instance)? SHALL be "([^"]*)"', re.I)
+
+
+def _implied(node):
+    """BICEPS documents implied values in the annotation: `The implied value SHALL be "false".`"""
+    for doc in node.iter('{%s}documentation' % XS):
+        m = _IMPLIED.search(' '.join((doc.text or '').split()))
+        if m and not m.group(1).startswith('urn:oid'):
+            return m.group(1)
+    return None
+
+
 def x(tag):
     return '{%s}%s' % (XS, tag)
 
@@ -116,7 +130,7 @@ class XsdTable:
             qualified = a.get('form') == 'qualified' or root.get('attributeFormDefault') == 'qualified'
             nm = self._clark(tns, a.get('name')) if qualified else a.get('name')
             typ = self._q(a, a.get('type')) if a.get('type') else None
-        t.attrs.append([nm, typ, a.get('use') == 'required', a.get('default')])
+        t.attrs.append([nm, typ, a.get('use') == 'required', a.get('default') if a.get('default') is not None else _implied(a)])
 
     def _particles(self, tns, t, parent, outer_min, root):
         for grp in parent:
